@@ -1,8 +1,204 @@
-(* C04 - statements (under construction) *)
-From Coq Require Import List Bool.
-From GolemV Require Import Graph.Heap Graph.Ops Graph.OpsSpec.
+(* C04 - Graph editing operations keep graphs well-formed and follow their specification.
+   Only statements, closed by `exact` (short glue allowed), each followed by Print Assumptions.
+   Model: Graph/Heap.v (node heap, WF), Graph/Ops.v (LinkedGraph methods), Graph/OpsSpec.v
+   (set-level specification, domain guards, agree / holds_b).
+   Proofs: Graph/OpsBase.v OpsDfs.v OpsProofs.v OpsProofs2.v OpsChar.v OpsAcyclic.v OpsRefine.v. *)
+From Coq Require Import List Bool Arith.
+From GolemV Require Import Graph.Heap Graph.Ops Graph.OpsSpec Graph.OpsBase Graph.OpsDfs Graph.OpsProofs
+  Graph.OpsProofs2 Graph.OpsChar Graph.OpsAcyclic Graph.OpsRefine.
 Import ListNotations.
 
+(* ---------------------------------------------------------------- the oracle decides the stated notions *)
+(* wf_b (used by holds_b on observed graphs) decides well-formedness: no node listed twice, no two
+   members with one uid, no parent linked twice, UniqueList containers, parents of members are
+   members, no dangling reference *)
+Theorem C04_wf_b_reflects : forall h g, wf_b h g = true <-> WF h g.
+Proof. exact wf_b_iff. Qed.
+Print Assumptions C04_wf_b_reflects.
+
+Theorem C04_acyclic_b_reflects : forall h g, WF h g -> (acyclic_b h g = true <-> acyclic h g).
+Proof. exact acyclic_b_iff. Qed.
+Print Assumptions C04_acyclic_b_reflects.
+
+Theorem C04_a_eqb_reflects : forall A B, a_eqb A B = true <->
+  ((forall x, In x (an A) <-> In x (an B)) /\ (forall e, In e (ae A) <-> In e (ae B)) /\
+   (forall l, In l (al A) <-> In l (al B))).
+Proof. exact a_eqb_iff. Qed.
+Print Assumptions C04_a_eqb_reflects.
+
+(* ordered_subnodes_hierarchy (used by delete_subtree, update_subtree, sort_nodes) raises exactly
+   when a cycle is reachable from its argument; otherwise it lists exactly the ancestors-or-self *)
+Theorem C04_hierarchy_raises_iff_cycle : forall h n, heap_ok h -> n < length h ->
+  (is_ok (hierarchy h n) = true <-> acyclic_from h n).
+Proof. exact hierarchy_ok_iff. Qed.
+Print Assumptions C04_hierarchy_raises_iff_cycle.
+
+Theorem C04_hierarchy_lists_ancestors : forall h n l, hierarchy h n = Ok l ->
+  NoDup l /\ In n l /\ (forall m p, In m l -> In p (pars h m) -> In p l) /\ (forall m, In m l <-> reach h n m).
+Proof. exact hierarchy_spec. Qed.
+Print Assumptions C04_hierarchy_lists_ancestors.
+
+(* ---------------------------------------------------------------- T1.1 / T1.2  well-formedness, no exception *)
+(* every operation (add_node, delete_node x3 modes, delete_subtree, update_node, update_subtree,
+   connect_nodes, disconnect_nodes with/without clean-up, and construction of new node objects)
+   applied inside its domain returns a value and the new graph is well-formed *)
+Theorem C04_op_preserves_WF : forall s o, WF (fst s) (snd s) -> guard_b s o = true ->
+  exists s', run_op s o = Ok s' /\ WF (fst s') (snd s').
+Proof. exact op_preserves_WF. Qed.
+Print Assumptions C04_op_preserves_WF.
+
+(* every sequence of operations, each applied inside its domain: no exception, well-formed result *)
+Theorem C04_ops_preserve_WF : forall os s, WF (fst s) (snd s) -> guards_ok s os = true ->
+  exists s', run_ops s os = Ok s' /\ WF (fst s') (snd s').
+Proof. exact ops_preserve_WF. Qed.
+Print Assumptions C04_ops_preserve_WF.
+
+(* ... and so is every intermediate state *)
+Theorem C04_reachable_states_WF : forall os1 os2 s, WF (fst s) (snd s) -> guards_ok s (os1 ++ os2) = true ->
+  exists s1, run_ops s os1 = Ok s1 /\ WF (fst s1) (snd s1).
+Proof. exact ops_reachable_WF. Qed.
+Print Assumptions C04_reachable_states_WF.
+
+(* ---------------------------------------------------------------- T1.4  acyclicity *)
+(* acyclic graphs stay acyclic unless the operation is a connect whose child is an ancestor of the
+   parent, or it inserts material that is cyclic itself / hangs on members (acyc_guard_b) *)
+Theorem C04_op_preserves_acyclic : forall s o s', WF (fst s) (snd s) -> guard_b s o = true ->
+  acyc_guard_b s o = true -> acyclic (fst s) (snd s) -> run_op s o = Ok s' -> acyclic (fst s') (snd s').
+Proof. exact op_preserves_acyclic. Qed.
+Print Assumptions C04_op_preserves_acyclic.
+
+Theorem C04_ops_preserve_acyclic : forall os s, WF (fst s) (snd s) -> acyclic (fst s) (snd s) ->
+  aguards_ok s os = true ->
+  exists s', run_ops s os = Ok s' /\ WF (fst s') (snd s') /\ acyclic (fst s') (snd s').
+Proof. exact ops_preserve_acyclic. Qed.
+Print Assumptions C04_ops_preserve_acyclic.
+
+(* the connect guard is exactly "the child is not an ancestor-or-self of the parent" *)
+Theorem C04_connect_keeps_acyclic : forall h g p c h' g', WF h g -> In p g -> In c g -> ~ reach h p c ->
+  connect_nodes h g p c = Ok (h', g') -> acyclic h g -> acyclic h' g'.
+Proof. exact connect_acyclic. Qed.
+Print Assumptions C04_connect_keeps_acyclic.
+
+(* ---------------------------------------------------------------- T1.3  refinement of the set-level specification *)
+(* for add_node, delete_node (none / single / all), delete_subtree, connect_nodes,
+   disconnect_nodes without clean-up (and object construction): node set, edge set and labels of
+   the result are those the documented meaning yields on the previous graph *)
+Theorem C04_op_refines_spec : forall s o s', WF (fst s) (snd s) -> guard_b s o = true -> refined_op o = true ->
+  run_op s o = Ok s' ->
+  a_eqb (abs (fst s') (snd s')) (spec_op (universe (fst s)) (abs (fst s) (snd s)) o) = true.
+Proof. exact op_refines_spec. Qed.
+Print Assumptions C04_op_refines_spec.
+
+(* Full statement for disconnect_nodes with clean-up (not proved):
+     forall s p c s', WF (fst s) (snd s) -> guard_b s (ODisconnect p c true) = true ->
+       run_op s (ODisconnect p c true) = Ok s' ->
+       a_eqb (abs (fst s') (snd s')) (spec_disconnect_cleanup (abs (fst s) (snd s)) p c) = true.
+   Proved part: edges and labels of the remaining members are those of the specification and the
+   member list only shrinks.  Missing: the removed set equals the round-based least fixed point
+   cleanup_set (the correspondence check evaluates it on every observed step). *)
+Theorem C04_disconnect_cleanup_refines_partial : forall h g p c h' g', WF h g -> In p g -> In c g ->
+  disconnect_nodes h g p c true = Ok (h', g') ->
+  incl g' g /\
+  (forall q r, In (q, r) (ae (abs h' g')) <-> In r g' /\ In (q, r) (ae (spec_disconnect (abs h g) p c))) /\
+  (forall r l, In (r, l) (al (abs h' g')) <-> In r g' /\ In (r, l) (al (abs h g))).
+Proof. exact disconnect_cleanup_refines_partial. Qed.
+Print Assumptions C04_disconnect_cleanup_refines_partial.
+
+(* Full statements for update_node / update_subtree (T2, not proved):
+     ... run_op s (OUpdNode old new) = Ok s' -> spec_guard_b s (OUpdNode old new) = true ->
+       a_eqb (abs (fst s') (snd s')) (spec_update_node (universe (fst s)) (abs (fst s) (snd s)) old new) = true
+     ... run_op s (OUpdSub old new) = Ok s' ->
+       a_eqb (abs (fst s') (snd s')) (spec_update_subtree (universe (fst s)) (abs (fst s) (snd s)) old new) = true
+   Missing: sort_nodes keeps the member set (in an acyclic parent-closed graph with a single
+   childless node every member is an ancestor of it).  Proved parts: the exact parent sets after
+   update_node, and the composition of the result of update_subtree. *)
+Theorem C04_update_node_result_partial : forall h g old new, WF h g -> guard_b (h, g) (OUpdNode old new) = true ->
+  exists h2 g3, update_node h g old new = Ok (h2, g3) /\ WF h2 g3 /\
+    (length h2 = length h /\
+     forall r, uid (get h2 r) = uid (get h r) /\ label (get h2 r) = label (get h r) /\ uniq (get h2 r) = uniq (get h r)) /\
+    (forall x, In x g -> forall p, In p (pars h2 x) <->
+        (p = new /\ In old (pars h x)) \/ (In p (pars h x) /\ p <> old)) /\
+    (forall p, In p (pars h2 new) <->
+        In p (pars h new) \/ (p = new /\ In old (pars h old)) \/ (In p (pars h old) /\ p <> old)) /\
+    (forall x, ~ In x g -> x <> new -> pars h2 x = pars h x) /\
+    (forall x, In x g3 -> (In x g /\ x <> old) \/ reach h2 new x).
+Proof. exact update_node_facts. Qed.
+Print Assumptions C04_update_node_result_partial.
+
+Theorem C04_update_subtree_result_partial : forall h g old new, WF h g -> guard_b (h, g) (OUpdSub old new) = true ->
+  exists h4 g3 (Bs : ref -> Prop), update_subtree h g old new = Ok (h4, g3) /\ WF h4 g3 /\
+    (forall x, In x g3 -> In x g \/ Bs x) /\
+    (forall x, Bs x -> length h <= x) /\
+    (forall x p, Bs x -> In p (pars h4 x) -> Bs p) /\
+    (forall x, Bs x -> ~ on_cycle h4 x) /\
+    (forall x, In x g -> In x g3 -> forall p, In p (pars h4 x) -> Bs p \/ In p (pars h x)).
+Proof. exact update_subtree_facts. Qed.
+Print Assumptions C04_update_subtree_result_partial.
+
+(* ---------------------------------------------------------------- T1.5  GraphDelegate *)
 Theorem C04_delegate_forwards : forall s o, gd_run_op s o = run_op s o.
 Proof. reflexivity. Qed.
 Print Assumptions C04_delegate_forwards.
+
+(* ---------------------------------------------------------------- boundaries of the domain (witnesses) *)
+(* "no operation raises when its arguments belong to the graph" needs the acyclic-subtree clause of
+   the domain: after a connect that closes a cycle, delete_subtree of a member on it raises
+   ValueError (by design of ordered_subnodes_hierarchy) *)
+Theorem C04_no_raise_needs_acyclic_subtree_refuted : exists h g n,
+  wf_b h g = true /\ memb n g = true /\ delete_subtree h g n = Raise ValueError.
+Proof.
+  exists [mkNode 1 0 [1] true; mkNode 2 1 [0] true], [0; 1], 0. vm_compute. auto.
+Qed.
+Print Assumptions C04_no_raise_needs_acyclic_subtree_refuted.
+
+(* the container-kind clause of WF is necessary: with plain-list parent containers (the state
+   graphs loaded from JSON had before the fix of D8) delete_node links a parent twice *)
+Theorem C04_plain_lists_break_WF_refuted : exists h g n s',
+  heap_ok_b h = true /\ nodup_b g = true /\ closed_b h g = true /\ uid_inj_b h g = true /\
+  forallb (fun r => nodup_b (pars h r)) g = true /\ memb n g = true /\
+  delete_node h g n RSingle = Ok s' /\ forallb (fun r => nodup_b (pars (fst s') r)) (snd s') = false.
+Proof.
+  exists [mkNode 1 0 [] false; mkNode 2 1 [0] false; mkNode 3 2 [1; 0] false], [0; 1; 2], 1.
+  eexists. vm_compute. repeat split.
+Qed.
+Print Assumptions C04_plain_lists_break_WF_refuted.
+
+(* ---------------------------------------------------------------- non-vacuity *)
+(* a diamond 0 <- 1, 0 <- 2, {1,2} <- 3 and two fresh objects (4, and 5 hanging on 4) *)
+Definition ex_h : heap :=
+  [mkNode 10 0 [] true; mkNode 11 1 [0] true; mkNode 12 2 [0] true; mkNode 13 3 [1; 2] true;
+   mkNode 14 4 [] true; mkNode 15 5 [4] true].
+Definition ex_g : graph := [3; 1; 0; 2].
+
+Example ex_wf : wf_b ex_h ex_g = true /\ acyclic_b ex_h ex_g = true.
+Proof. vm_compute. auto. Qed.
+
+(* every guard is satisfiable on it, and the operations change the graph *)
+Example ex_guards :
+  forallb (fun o => guard_b (ex_h, ex_g) o && acyc_guard_b (ex_h, ex_g) o)
+    [OAlloc [mkNode 20 6 [0; 6] true]; OAdd 5; ODelete 1 RNone; ODelete 1 RSingle; ODelete 0 RAll; ODelSub 1;
+     OUpdNode 1 5; OUpdSub 1 5; OUpdSub 1 2; OUpdSub 3 1; OConnect 1 2; ODisconnect 1 3 false;
+     ODisconnect 1 3 true] = true.
+Proof. vm_compute. reflexivity. Qed.
+
+Example ex_effects :
+  match run_op (ex_h, ex_g) (OUpdSub 1 2), run_op (ex_h, ex_g) (ODisconnect 1 3 true),
+        run_op (ex_h, ex_g) (ODelete 0 RAll) with
+  | Ok (h1, g1), Ok (_, g2), Ok (h3, g3) =>
+      (length h1 =? 8) && (length g1 =? 4) && (length g2 =? 3) && (length g3 =? 3)
+  | _, _, _ => false
+  end = true.
+Proof. vm_compute. reflexivity. Qed.
+
+(* a guarded sequence of six operations (with a relatives insertion and a clean-up) *)
+Example ex_sequence :
+  aguards_ok (ex_h, ex_g)
+    [OUpdSub 1 2; OAlloc [mkNode 30 7 [] true]; OUpdNode 2 8; ODisconnect 8 3 true; OConnect 7 3; OAdd 5] = true /\
+  guards_ok (ex_h, ex_g) [OConnect 3 0; ODelete 1 RAll; OAdd 5] = true.
+Proof. vm_compute. auto. Qed.
+
+(* refined_op covers seven operation forms *)
+Example ex_refined :
+  forallb refined_op [OAdd 5; ODelete 1 RNone; ODelete 1 RSingle; ODelete 0 RAll; ODelSub 1; OConnect 1 2;
+                      ODisconnect 1 3 false] = true.
+Proof. reflexivity. Qed.
